@@ -59,6 +59,8 @@ def partial_globs(ref):
 
 def gen(ref, tier):
     k = 2 if tier == "thorough" else 1
+    if tier == "c20":
+        k = 0
     for s in searchgen.family(ref, k=k, with_last=False):
         if ">" not in s:
             yield s
